@@ -371,7 +371,7 @@ def rule_nul(X, R, rule="R20-nul"):
     # as_c_str: null for the empty string
     ha = X.hir("cstring::CString::as_c_str")
     if ha:
-        t = tail(ha["body"])
+        t = fn_result(ha)
         ok = t.get("k") == "If" and any(c["m"] == "is_empty" for c in exprs(t["cond"], "MethodCall")) and \
             any(norm(c.get("callee", "")).endswith("ptr::null") for c in exprs(t["then"], "Call"))
         R.check(ok, rule, "cstring::CString::as_c_str", "empty string -> NULL pointer", where=ha["span"])
